@@ -145,8 +145,8 @@ META["C06"] = {
 
 CHECKS["C14"] = {
     "stages": [
-        A("foreign", "foreign1", name="foreign", cases={"quick": 120, "thorough": 3000}, exhaustive_stage=True),
-        A("ctxrace", "ctxrace1", name="independence", cases={"quick": 40, "thorough": 1200}, libs=("lib-tsan",), gate_tries=10, gate_need=1),
+        A("foreign", "foreign1", name="foreign", cases={"quick": 400, "thorough": 6000}, exhaustive_stage=True),
+        A("ctxrace", "ctxrace1", name="independence", cases={"quick": 120, "thorough": 2500}, libs=("lib-tsan",), gate_tries=10, gate_need=1),
     ],
     "key_classes": ["loops-overlapped", "B-own-ctx", "B-no-ctx"],
     "assumptions": [
@@ -174,7 +174,7 @@ def F(binary, runs_thorough, name="libfuzzer", **kw):
     return d
 
 CHECKS["C12"]["stages"].append(F("fuzz_qsl", 400000))
-CHECKS["C05"]["stages"].append(F("fuzz_map", 300000))
+CHECKS["C05"]["stages"].append(F("fuzz_map", 120000))
 CHECKS["C11"]["stages"].append(F("fuzz_bst", 400000))
 CHECKS["C10"]["stages"].append(F("fuzz_mem", 400000))
 for _p in ("C05", "C10", "C11", "C12"):
